@@ -38,7 +38,14 @@
 #include "opentelemetry/sdk/logs/processor.h"
 #include "opentelemetry/sdk/logs/read_write_log_record.h"
 #include "opentelemetry/sdk/metrics/instrument_metadata_validator.h"
+#include "opentelemetry/sdk/metrics/meter_context.h"
+#include "opentelemetry/sdk/metrics/meter_context_factory.h"
 #include "opentelemetry/sdk/metrics/meter_provider.h"
+#include "opentelemetry/sdk/metrics/meter_provider_factory.h"
+#include "opentelemetry/sdk/metrics/view/instrument_selector_factory.h"
+#include "opentelemetry/sdk/metrics/view/meter_selector_factory.h"
+#include "opentelemetry/sdk/metrics/view/view_factory.h"
+#include "opentelemetry/sdk/metrics/view/view_registry_factory.h"
 #include "opentelemetry/sdk/metrics/metric_reader.h"
 #include "opentelemetry/sdk/metrics/view/attributes_processor.h"
 #include "opentelemetry/sdk/metrics/view/instrument_selector.h"
@@ -144,6 +151,27 @@ static long value_of(const sm::ValueType &v)
   return static_cast<long>(nostd::get<double>(v));
 }
 
+// the MeterProvider is built through one of its constructors / factory overloads / an explicit MeterContext, chosen by the
+// case: views, resource and scope configurator must reach the meters through every one of them
+static std::shared_ptr<sm::MeterProvider> make_meter_provider(size_t variant, std::unique_ptr<sm::ViewRegistry> views,
+                                                              const res::Resource &resource,
+                                                              std::unique_ptr<scope_ns::ScopeConfigurator<sm::MeterConfig>> conf)
+{
+  switch (variant % 4)
+  {
+    case 1:
+      return std::shared_ptr<sm::MeterProvider>(sm::MeterProviderFactory::Create(std::move(views), resource, std::move(conf)));
+    case 2:
+      return std::shared_ptr<sm::MeterProvider>(
+          sm::MeterProviderFactory::Create(sm::MeterContextFactory::Create(std::move(views), resource, std::move(conf))));
+    case 3:
+      return std::make_shared<sm::MeterProvider>(
+          std::unique_ptr<sm::MeterContext>(new sm::MeterContext(std::move(views), resource, std::move(conf))));
+    default:
+      return std::make_shared<sm::MeterProvider>(std::move(views), resource, std::move(conf));
+  }
+}
+
 static std::string handle_mv(const std::vector<std::string> &t)
 {
   auto ops = vh::split_ops(t, 1);
@@ -153,7 +181,19 @@ static std::string handle_mv(const std::vector<std::string> &t)
   if (ops[0][4] != "0" && ops[0][4] != "1") return "bad-op";
   bool enabled = ops[0][4] == "1";
 
-  std::unique_ptr<sm::ViewRegistry> views(new sm::ViewRegistry());
+  // which entry points build the configuration depends on the case (number of operations): the provider constructor /
+  // factory, and whether the views go into a ViewRegistry handed to the provider or are added with MeterProvider::AddView
+  // afterwards (before any instrument exists), built directly or through the *Factory::Create functions
+  const size_t how      = ops.size();
+  const bool late_views = (how / 4) % 2 == 1;
+  std::unique_ptr<sm::ViewRegistry> views(late_views ? sm::ViewRegistryFactory::Create().release() : new sm::ViewRegistry());
+  struct PendingView
+  {
+    std::unique_ptr<sm::InstrumentSelector> isel;
+    std::unique_ptr<sm::MeterSelector> msel;
+    std::unique_ptr<sm::View> view;
+  };
+  std::vector<PendingView> pending;
   struct InstrReq
   {
     sm::InstrumentType type;
@@ -208,10 +248,21 @@ static std::string handle_mv(const std::vector<std::string> &t)
       }
       try
       {
-        std::unique_ptr<sm::InstrumentSelector> isel(new sm::InstrumentSelector(it, pat, unit));
-        std::unique_ptr<sm::MeterSelector> msel(new sm::MeterSelector(smn, smv, sms));
-        std::unique_ptr<sm::View> view(new sm::View(vname, vdesc, vunit, agg, config, std::move(proc)));
-        views->AddView(std::move(isel), std::move(msel), std::move(view));
+        if (late_views)
+        {
+          PendingView pv;
+          pv.isel = sm::InstrumentSelectorFactory::Create(it, pat, unit);
+          pv.msel = sm::MeterSelectorFactory::Create(smn, smv, sms);
+          pv.view = sm::ViewFactory::Create(vname, vdesc, vunit, agg, config, std::move(proc));
+          pending.push_back(std::move(pv));
+        }
+        else
+        {
+          std::unique_ptr<sm::InstrumentSelector> isel(new sm::InstrumentSelector(it, pat, unit));
+          std::unique_ptr<sm::MeterSelector> msel(new sm::MeterSelector(smn, smv, sms));
+          std::unique_ptr<sm::View> view(new sm::View(vname, vdesc, vunit, agg, config, std::move(proc)));
+          views->AddView(std::move(isel), std::move(msel), std::move(view));
+        }
       }
       catch (const std::exception &)
       {
@@ -243,7 +294,8 @@ static std::string handle_mv(const std::vector<std::string> &t)
   auto resource = res::Resource::Create({});
   std::unique_ptr<scope_ns::ScopeConfigurator<sm::MeterConfig>> conf(new scope_ns::ScopeConfigurator<sm::MeterConfig>(
       scope_ns::ScopeConfigurator<sm::MeterConfig>::Builder(enabled ? sm::MeterConfig::Enabled() : sm::MeterConfig::Disabled()).Build()));
-  auto provider = std::make_shared<sm::MeterProvider>(std::move(views), resource, std::move(conf));
+  auto provider = make_meter_provider(how, std::move(views), resource, std::move(conf));
+  for (auto &pv : pending) provider->AddView(std::move(pv.isel), std::move(pv.msel), std::move(pv.view));
   auto reader   = std::make_shared<ExplicitReader>();
   provider->AddMetricReader(reader);
   nostd::shared_ptr<mapi::Meter> meter;
@@ -544,7 +596,8 @@ static std::string handle_sc(const std::vector<std::string> &t)
       nostd::shared_ptr<opentelemetry::trace::Tracer> tr;
       {
         vh::Exact n(reqs[k].name), v(reqs[k].ver), s(reqs[k].schema);
-        tr = provider.GetTracer(sv(n), sv(v), sv(s));
+        // an empty scope name is also handed over as a string_view without a buffer (data() == nullptr), every other time
+        tr = provider.GetTracer(reqs[k].name.empty() && k % 2 == 1 ? nostd::string_view() : sv(n), sv(v), sv(s));
       }
       keep.push_back(tr);
       size_t before = captured.size();
@@ -598,7 +651,7 @@ static std::string handle_sc(const std::vector<std::string> &t)
         vh::Exact n(reqs[k].name), v(reqs[k].ver), s(reqs[k].schema), ln(reqs[k].lname);
         std::map<std::string, std::string> attrs(reqs[k].attrs.begin(), reqs[k].attrs.end());
         KeyValueIterableView<std::map<std::string, std::string>> av(attrs);
-        lg = provider.GetLogger(sv(ln), sv(n), sv(v), sv(s), av);
+        lg = provider.GetLogger(sv(ln), reqs[k].name.empty() && k % 2 == 1 ? nostd::string_view() : sv(n), sv(v), sv(s), av);
       }
       keep.push_back(lg);
       size_t before = captured.size();
@@ -616,8 +669,8 @@ static std::string handle_sc(const std::vector<std::string> &t)
   }
   // meters
   {
-    auto provider = std::make_shared<sm::MeterProvider>(std::unique_ptr<sm::ViewRegistry>(new sm::ViewRegistry()), resource,
-                                                        build_conf<sm::MeterConfig>(rules, def));
+    auto provider = make_meter_provider(rules.size() + reqs.size(), std::unique_ptr<sm::ViewRegistry>(new sm::ViewRegistry()), resource,
+                                        build_conf<sm::MeterConfig>(rules, def));
     auto reader   = std::make_shared<ExplicitReader>();
     provider->AddMetricReader(reader);
     std::vector<nostd::shared_ptr<mapi::Meter>> keep;
@@ -627,7 +680,7 @@ static std::string handle_sc(const std::vector<std::string> &t)
       nostd::shared_ptr<mapi::Meter> m;
       {
         vh::Exact n(reqs[k].name), v(reqs[k].ver), s(reqs[k].schema);
-        m = provider->GetMeter(sv(n), sv(v), sv(s));
+        m = provider->GetMeter(reqs[k].name.empty() && k % 2 == 1 ? nostd::string_view() : sv(n), sv(v), sv(s));
       }
       keep.push_back(m);
       std::string cname = "c" + std::to_string(k);
